@@ -79,6 +79,10 @@ def main(tier):
                       'graphs = every multigraph on %d nodes with <= %d edges from the pool (pairs incl. self-loops) x weights {0,1/2,1,3} (TLC-enumerated) '
                       '+ %d seeded random graphs n<=40 + larger ones (certificate form); non-trivial = has a non-loop edge, counted by TLC' % (gn2, gk2, nrand))
     ev.cov['exhaustive'] = False
+    ev.cov['beyond_statement'] = ('every record also carries cola::connectedComponents / separateComponents on the same graph (rectangles of mixed sizes on a '
+                                  '6-column grid): ComponentsOK = components partition the nodes, each is the reachability class of its first node, every edge '
+                                  're-indexed into exactly one component with multiplicity, rects[] parallel to node_ids[]; SeparateOK = rigid motion per component, '
+                                  'bounding boxes disjoint afterwards, Rectangle::xBorder/yBorder restored (tags components / separate-components)')
     ev.assumptions = ['weights are multiples of 1/8 so every sum is exact in doubles; equality is exact, stricter than the 1e-9 of the statement',
                       'G diagonal not specified (a self-loop sets it to 1)']
     # beyond the statement: the priority queue under Dijkstra (and under VPSC's constraint heaps), Heap.tla / HeapTrace.tla
